@@ -427,13 +427,27 @@ def passthrough_case(rng):
     if t.count('"') % 2 == 1:
         t += '"'
     # a '#' preceded on its line only by blanks and strings is a directive for the implementation (S4)
-    fixed = []
-    for ln in t.split("\n"):
-        if re.match(r'^(\s|"[^"]*")*#', ln):
-            ln = "x " + ln
-        fixed.append(ln)
-    t = "\n".join(fixed)
-    return t
+    # (a string may have begun on an earlier line: what counts is what stands on the '#' line itself)
+    out, in_str, only = [], False, True
+    for ch in t:
+        if ch == "\n":
+            only = True
+            out.append(ch)
+            continue
+        if in_str:
+            if ch == '"':
+                in_str = False
+            out.append(ch)
+            continue
+        if ch == '"':
+            in_str = True
+        elif ch == "#" and only:
+            out.append("x ")
+            only = False
+        elif ch not in " \t":
+            only = False
+        out.append(ch)
+    return "".join(out)
 
 
 RECURSIVE = [
